@@ -35,3 +35,26 @@ Definition chk_curve (which tau e : nat) (init impl : vec) : nat :=
            | _ => convexe_scaled_rec tau e init
            end in
   vcmp (length init) (fun j => qabs (getv init j)) m impl.
+
+(* ctor.labelled : the constructors called with label lists (possibly listing a label several
+   times) and label-indexed weights.  impl = None: raised; Some l: the impact entries in the
+   order of the produced index, each with the number of its label. *)
+Definition chk_labelled_res (lbls : list nat) (r : cres) (impl : option (list (nat * Qc))) : nat :=
+  match r, impl with
+  | CErr _, None => 0%nat
+  | CErr _, Some _ => 3%nat
+  | COk v, None => match from_series v with CErr _ => 0%nat | COk _ => 3%nat end
+  | COk v, Some iw =>
+      let kept := filter (fun p => negb (Qceqb (snd p) 0)) (combine lbls v) in
+      if existsb (fun p => Qcleb (snd p) 0) kept then 3%nat
+      else if negb (Nat.eqb (length kept) (length iw)) then 2%nat
+      else vcmp (length kept) z1 (map snd kept) (map (fun p => oget (lookupw iw (fst p))) kept)
+  end.
+Definition chk_scalar_lbl (I : Qc) (aff : list nat) (w : option (list (nat * Qc)))
+    (impl : option (list (nat * Qc))) : nat :=
+  let '(lbls, r) := scalar_labelled I aff w in chk_labelled_res lbls r impl.
+(* industry (r, s) is numbered r * 1000 + s *)
+Definition chk_regsec_lbl (I : Qc) (regs secs : list nat) (wr ws : option (list (nat * Qc)))
+    (impl : option (list (nat * Qc))) : nat :=
+  let '(lbls, r) := regsec_labelled I regs secs wr ws in
+  chk_labelled_res (map (fun p => (fst p * 1000 + snd p)%nat) lbls) r impl.
